@@ -1082,6 +1082,11 @@ class Fn:
         if m == "get_mut" and not al and s.is_self(recv):
             return k("self", ("selfalias",))
         # methods of self
+        if s.is_self(recv) and st and m not in st.methods and s.cfg.get("helper"):
+            # a method the configuration does not list (e.g. a helper a refactoring introduced): translate it on demand
+            sig = s.cfg["helper"](s, m)
+            if sig is not None:
+                st.methods[m] = sig
         if s.is_self(recv) and st and m in st.methods:
             sig = st.methods[m]
             return s.args(al, lambda av: s.call_sig(sig, av, k, hint or sig.hint, discard))
